@@ -24,6 +24,7 @@ func main() {
 	list := flag.Bool("list", false, "list properties")
 	seededJSON := flag.String("seeded-json", "", "results of the seeded-variant self-test (tools/mutants.py --json) to embed in the evidence")
 	describe := flag.Bool("describe", false, "print the properties' claim texts as JSON")
+	writeBaseline := flag.Bool("write-baseline", false, "write baseline_funcs.txt (the private functions of the tree the obligations are confirmed on) and exit")
 	flag.Parse()
 	if *describe {
 		out := map[string]string{}
@@ -74,6 +75,23 @@ func main() {
 	if err != nil {
 		out.Internal = err.Error()
 	}
+	if err := wm.LoadBaseline(*verif + "/baseline_funcs.txt"); err != nil && !*writeBaseline {
+		out.Internal = "baseline_funcs.txt: " + err.Error()
+	}
+	if *writeBaseline {
+		p, err := wm.Load(wm.Config{Dir: *repo, Label: "default"})
+		if err != nil {
+			fmt.Println(err)
+			os.Exit(2)
+		}
+		txt := "# private package-level functions and methods of the tree the obligations were confirmed on (wmcheck -write-baseline).\n# Only used to decide which helpers are NEW (and may be read at their single call site); never to find or match anything.\n" + strings.Join(p.PrivateFuncs(), "\n") + "\n"
+		if err := os.WriteFile(*verif+"/baseline_funcs.txt", []byte(txt), 0o644); err != nil {
+			fmt.Println(err)
+			os.Exit(2)
+		}
+		fmt.Println("wrote", *verif+"/baseline_funcs.txt")
+		os.Exit(0)
+	}
 	if out.Internal == "" {
 		if msg := wm.RunCanaries(*verif + "/checker/testdata/canary"); msg != "" {
 			out.Internal = "canary self-test failed: " + msg
@@ -102,6 +120,19 @@ func main() {
 		if err != nil {
 			out.Internal = err.Error()
 			break
+		}
+		// second attempt: private single-call-site helpers that are new since the obligations were confirmed are
+		// read as if their body stood at the call; taken only if every obligation holds on that view
+		if c.Failing(known) > 0 && wm.Baseline != nil {
+			wm.TransparentOn = true
+			wm.ResetTransparent()
+			c2, err2 := def.RunOn(p, *tier == "thorough")
+			wm.TransparentOn = false
+			if used := wm.UsedTransparent(); err2 == nil && len(used) > 0 && c2.Failing(known) == 0 {
+				c = c2
+				out.Extra["inlined_helpers["+cfg.Label+"]"] = used
+				fmt.Printf("note: decided on the view with %d new private single-call-site helper(s) read at their call: %s\n", len(used), strings.Join(used, ", "))
+			}
 		}
 		out.Merge(c, known)
 	}
